@@ -1,4 +1,95 @@
-import BipVerif.Model.Bip32
+/-
+C06 — BIP-32 paths: derivation along a path is the chain of child derivations (compositional),
+the parser accepts every spelling of a path and inverts the printer, and it fails only with
+`Bip32PathError` and never returns an index outside `[0, 2^32)`.
+-/
+import BipVerif.Lemmas.Path
+
 namespace BipVerif.Props.C06
-theorem placeholder : True := trivial
+open BipVerif BipVerif.Model
+
+/-! ### derivation -/
+
+/-- deriving a relative path is the left-to-right chain of `ChildKey` calls -/
+theorem derive_eq_child_chain (child : Node → Nat → R Node) (nd : Node) (p : List Nat) :
+    derivePathWith child nd ⟨p, false⟩ = p.foldlM child nd := by
+  simp [derivePathWith]
+
+/-- on a depth-0 (master) node an absolute path derives like the relative one -/
+theorem derive_absolute_on_master (child : Node → Nat → R Node) (nd : Node) (h : nd.depth = 0)
+    (p : List Nat) (a : Bool) : derivePathWith child nd ⟨p, a⟩ = p.foldlM child nd := by
+  simp [derivePathWith, h]
+
+/-- an absolute path is refused on any non-master node, whatever the path -/
+theorem absolute_refused_on_child (child : Node → Nat → R Node) (nd : Node) (p : List Nat)
+    (h : nd.depth > 0) : derivePathWith child nd ⟨p, true⟩ = .error .value := by
+  simp [derivePathWith, h]
+  rfl
+
+/-- **compositionality**: deriving `p ++ q` is deriving `p` and then `q` from the result -/
+theorem derive_append (child : Node → Nat → R Node) (nd : Node) (p q : List Nat) :
+    derivePathWith child nd ⟨p ++ q, false⟩
+      = derivePathWith child nd ⟨p, false⟩ >>= fun x => derivePathWith child x ⟨q, false⟩ := by
+  simp only [derive_eq_child_chain, List.foldlM_append]
+
+/-- compositionality for an absolute path on a master node (the tail is relative) -/
+theorem derive_append_absolute (child : Node → Nat → R Node) (nd : Node) (h : nd.depth = 0)
+    (p q : List Nat) :
+    derivePathWith child nd ⟨p ++ q, true⟩
+      = derivePathWith child nd ⟨p, true⟩ >>= fun x => derivePathWith child x ⟨q, false⟩ := by
+  simp only [derive_eq_child_chain, derive_absolute_on_master _ _ h, List.foldlM_append]
+
+/-! ### printing and parsing -/
+
+/-- **the parser inverts the printer** on every path whose indices fit in 32 bits (including the
+empty relative path `""` and the empty absolute path `"m"`) -/
+theorem parse_print (p : Path) (hr : ∀ e ∈ p.elems, e < 2 ^ 32) :
+    parsePath (printPath p) = .ok p := by
+  rw [printPath_eq_respell]
+  exact parsePath_respell _ _ (canonSpelling_ok p) hr
+
+/-- **spelling independence**: every member of the family `respell σ p` of spellings of `p`
+(`Model.Spelling`: per element a marker `'`/`h`/`p` on the index minus `2^31` or on the full index,
+or no marker on the full index; `gap` extra '/' before each element; blanks with `str.isspace()`
+around each element; leading zeros; every digit written in ASCII or in any other Unicode `Nd` block;
+`trail` trailing '/'; for absolute paths a leading "m" after `lead` extra '/') parses to `p`. -/
+theorem spelling_independent (σ : Spelling) (p : Path) (hσ : σ.Ok p)
+    (hr : ∀ e ∈ p.elems, e < 2 ^ 32) : parsePath (respell σ p) = .ok p :=
+  parsePath_respell σ p hσ hr
+
+/-- two admissible spellings of the same path parse alike -/
+theorem spelling_independent' (σ τ : Spelling) (p : Path) (hσ : σ.Ok p) (hτ : τ.Ok p)
+    (hr : ∀ e ∈ p.elems, e < 2 ^ 32) : parsePath (respell σ p) = parsePath (respell τ p) := by
+  rw [parsePath_respell σ p hσ hr, parsePath_respell τ p hτ hr]
+
+/-! ### parser failures and range -/
+
+/-- the parser fails with `Bip32PathError` only -/
+theorem parse_error_kind (s : List Char) (e : Err) (h : parsePath s = .error e) : e = .path := by
+  rw [parsePath_eq] at h
+  split at h <;> exact parseTokens_error _ _ _ h
+
+/-- a '/'-delimited piece that is not an index (`parsePathElem` fails on it: not a decimal number,
+doubled marker, only blanks, ...) makes the whole parse fail, wherever it stands -/
+theorem parse_rejects_bad_element (a t b : List Char) (e : Err) (hne : t ≠ []) (hs : '/' ∉ t)
+    (hm : t ≠ ['m']) (hbad : parsePathElem t = .error e) :
+    parsePath (a ++ '/' :: (t ++ '/' :: b)) = .error .path := by
+  apply parsePath_bad_token _ t e _ hm hbad
+  rw [pathTokens_append_sep, pathTokens_append_sep, pathTokens_of_not_mem t hs]
+  cases t with
+  | nil => exact absurd rfl hne
+  | cons c t => simp
+
+/-- the range hypothesis of `spelling_independent` is necessary: any admissible spelling of a path
+with an index `≥ 2^32` is rejected -/
+theorem parse_rejects_out_of_range (σ : Spelling) (p : Path) (hσ : σ.Ok p) (e : Nat)
+    (he : e ∈ p.elems) (hr : 2 ^ 32 ≤ e) : parsePath (respell σ p) = .error .path :=
+  parsePath_respell_out_of_range σ p hσ e he hr
+
+/-- every index of a parsed path fits in 32 bits -/
+theorem parse_ok_range (s : List Char) (p : Path) (h : parsePath s = .ok p) :
+    ∀ e ∈ p.elems, e < 2 ^ 32 := by
+  rw [parsePath_eq] at h
+  split at h <;> exact (parseTokens_ok_range _ _ _ h).2
+
 end BipVerif.Props.C06
